@@ -17,6 +17,8 @@ Clauses (property C09):
   leak         no connection record outlives its user (slots occupied at the end = users still connected)
   hb-schedule  within one loop iteration (one timer tick) an object's heart_beat runs at most once, and never after the
                object was destructed: a failing or self-removing heart beat does not disturb the round of the others
+  turns        within one loop iteration a user gets at most ONE command served (process_input once, the command once):
+               a user with a backlog cannot keep the others waiting
   disconnect   the driver tells a user object `net_dead` only when that user's own client went away: events of other
                connections (hang-ups, errors, accepts arriving in the same poll) never cost a user its connection
 -/
@@ -186,6 +188,18 @@ def hbSchedule : List Oid → List Oid → List Oid → List Ev → List String
 
 def clauseHbSchedule (es : List Ev) : List String := hbSchedule [] [] [] es
 
+/-- clause `turns`: `ins` / `cmds` = users whose process_input / command already ran in this iteration -/
+def turnsOk : List Oid → List Oid → List Ev → List String
+  | _, _, [] => []
+  | _, _, .cycle _ :: es => turnsOk [] [] es
+  | ins, cmds, .tInput u _ :: es =>
+    if ins.contains u then [s!"turns {u.name} served twice in one iteration"] else turnsOk (u :: ins) cmds es
+  | ins, cmds, .tCmd u _ :: es =>
+    if cmds.contains u then [s!"turns {u.name} served twice in one iteration"] else turnsOk ins (u :: cmds) es
+  | ins, cmds, _ :: es => turnsOk ins cmds es
+
+def clauseTurns (es : List Ev) : List String := turnsOk [] [] es
+
 def judgeEv (x : Expect) (es : List Ev) : List String :=
   if !(clauseCrash es).isEmpty then clauseCrash es else
   let ex := hasExit es
@@ -225,6 +239,6 @@ def judgeEv (x : Expect) (es : List Ev) : List String :=
     | some n =>
       let live := (liveUsers [] es).length
       if n > live then [s!"leaked-conn slots={n} live-users={live}"] else []
-  v1 ++ v2 ++ v3 ++ v4 ++ v5 ++ v6 ++ v7 ++ clauseRefs es ++ clauseDisconnect x es ++ clauseHbSchedule es
+  v1 ++ v2 ++ v3 ++ v4 ++ v5 ++ v6 ++ v7 ++ clauseRefs es ++ clauseDisconnect x es ++ clauseHbSchedule es ++ clauseTurns es
 
 end NV.C09
